@@ -91,6 +91,57 @@ def h_continuation(npages: int, c1: int, c2: int, c3: int, stuck: bool, repeat: 
     return None
 
 
+def h_continuation_lists(npages: int, m0: int, m1: int, m2: int, m3: int, c1: int, c2: int, c3: int, c4: int, maxpages: int = 3):
+    """Every page has 1..2 images; the wiki serves the flat list of (page, image) entries in batches cut at symbolic positions,
+    so that one page's image list can arrive in two consecutive batches (the page is repeated with the rest of its list).
+    The merged result must hold, for every page, its complete list in order, and every batch must be requested once."""
+    assume(1 <= npages <= maxpages)
+    ms = [m0, m1, m2, m3][:npages]
+    items = []
+    for i in range(npages):
+        assume(1 <= ms[i] <= 2)
+        for k in range(ms[i]):
+            items.append(("P%d" % i, "File:%d_%d.png" % (i, k)))
+    n = len(items)
+    assume(0 <= c1 <= c2 <= c3 <= c4 <= n)
+    cuts = [0, c1, c2, c3, c4, n]
+    log = []
+
+    def handler(**kw):
+        start = int(kw.get("imcontinue", 0))
+        log.append(start)
+        if len(log) > 14:
+            raise RuntimeError("continuation does not terminate")
+        end = n
+        for c in cuts:
+            if c > start:
+                end = c
+                break
+        pages = {}
+        for t, img in items[start:end]:
+            pages.setdefault(t, {"title": t, "images": []})["images"].append({"title": img})
+        data = {"query": {"pages": pages}}
+        if end < n:
+            data["query-continue"] = {"images": {"imcontinue": end}}
+        return data
+
+    api = make_api(handler)
+    try:
+        res = api.do_request(action="query", prop="images")
+    except RuntimeError:
+        return {"sig": "continuation|does-not-terminate", "cuts": cuts, "items": n, "log": log}
+    want = {}
+    for t, img in items:
+        want.setdefault(t, []).append(img)
+    got = {t: [x.get("title") for x in (p.get("images") or [])] for t, p in (res.get("pages") or {}).items()}
+    if got != want:
+        return {"sig": "continuation|page-list-not-the-concatenation", "cuts": cuts, "got": got, "want": want}
+    for i, s_ in enumerate(log):
+        if s_ in log[:i]:
+            return {"sig": "continuation|batch-requested-twice", "cuts": cuts, "log": log}
+    return None
+
+
 # ---------------------------------------------------------------------------- contributors
 
 
@@ -227,6 +278,8 @@ def build(tier: str) -> CheckSpec:
     tmo = 240 if tier == "quick" else 1500
     cubes = [
         Cube("continuation: batches cut at symbolic positions", h_continuation, {"npages": int, "c1": int, "c2": int, "c3": int, "stuck": bool, "repeat": bool}, {}, timeout=tmo, group="continuation"),
+        Cube("continuation: one page's list split over batches", h_continuation_lists,
+             {"npages": int, "m0": int, "m1": int, "m2": int, "m3": int, "c1": int, "c2": int, "c3": int, "c4": int}, {"maxpages": 3 if tier == "quick" else 4}, timeout=tmo, group="continuation"),
         Cube("contributors: names, bots, anon counts, chunks, redirect", h_contributors,
              {"n1": int, "n2": int, "n3": int, "a1": int, "a2": int, "cut": int, "redirect": bool, "anon_late": bool}, {"n4": 0}, timeout=tmo, group="contributors"),
         Cube("get_edits stores what the API reported", h_lookup_written, {"n1": int, "n2": int, "anon": int, "mapped": bool, "t": int}, {}, timeout=tmo, group="authors-store"),
@@ -240,7 +293,8 @@ def build(tier: str) -> CheckSpec:
         functions=[sapi.MwApi._do_request, sapi.MwApi._handle_query_continue, sapi.merge_data, sapi.MwApi.get_contributors,
                    fetch.Fetcher.get_edits, fetch.Fetcher._add_to_titles_pending_contributor_lookup, fetch.Fetcher._lookup_contributors,
                    fetch.split_blocks, fetch.get_block, authors.InspectAuthors.get_authors],
-        bounds={"continuation": "0..5 pages, three symbolic cut points, optional server that repeats its continuation token, optionally the same query issued twice on one client",
+        bounds={"continuation": "0..5 pages, three symbolic cut points, optional server that repeats its continuation token, optionally the same query issued twice on one client; "
+                                "1..%d pages with 1..2 images each served as a flat list cut at four symbolic positions (a page's list split over consecutive batches)" % (3 if tier == "quick" else 4),
                 "contributors": "2 titles, 4 entries with names from %r, symbolic anonymous counts < 1000 arriving with the first or the second chunk, chunk cut 0..4, optional redirect" % NAMES,
                 "authors store": "2 names from the same list, symbolic anonymous count, plain and mapped (image) title",
                 "batching": "lists of 0..7 entries, limits 1..8"},
@@ -254,7 +308,7 @@ def build(tier: str) -> CheckSpec:
 
 
 def replay(cand: dict) -> dict:
-    fn = {"h_continuation": h_continuation, "h_contributors": h_contributors, "h_lookup_written": h_lookup_written, "h_blocks": h_blocks}[cand["fn"]]
+    fn = {"h_continuation": h_continuation, "h_continuation_lists": h_continuation_lists, "h_contributors": h_contributors, "h_lookup_written": h_lookup_written, "h_blocks": h_blocks}[cand["fn"]]
     import inspect
 
     a = cand["args"]
